@@ -197,6 +197,10 @@ def one_program(ctx, prog, script, rng):
                 ctx.count('conditional_terms_unreached', len(missing))
 
 
+def script_names(eqs):
+    return {tm.name for e in eqs for tm in e.terms()}
+
+
 def multi_target(ctx, prog, rng):
     """A statement with several left-hand-side terms (`A, B = e1, e2`): one node per left-hand-side term, each
     carrying the equation, each with an edge from every right-hand-side term of that equation; dynamically, the
@@ -212,7 +216,13 @@ def multi_target(ctx, prog, rng):
     lay = gen.Layout(None)
     merged, rest = eqs[:k], eqs[k:]
     line = ', '.join(gen.render_var(e.lhs, 'script', lay) for e in merged) + ' = ' + ', '.join('(' + gen.render(e.rhs, 'script', lay) + ')' for e in merged)
-    script = '\n'.join([line] + [gen.render_eq(e, 'script') for e in rest])
+    # the statement stands anywhere in the script, possibly after an equation that already uses every one of its targets
+    others = [gen.render_eq(e, 'script') for e in rest]
+    at = rng.randrange(len(others) + 1)
+    lines = others[:at] + [line] + others[at:]
+    if rng.random() < 0.5 and 'ZZsum' not in script_names(eqs):
+        lines.insert(0, 'ZZsum = ' + ' + '.join(gen.render_var(e.lhs, 'script', lay) for e in merged))
+    script = '\n'.join(lines)
     case = {'script': script, 'multi_target': True}
     ctx.evaluation(script, nontrivial=True, sample={'script': script})
     try:
